@@ -5,6 +5,7 @@ import (
 	"go/constant"
 	"go/token"
 	"go/types"
+	"regexp"
 	"sort"
 	"strings"
 
@@ -148,7 +149,7 @@ func init() {
 				if ci.Common().IsInvoke() && ci.Common().Method.Name() == "CurrentConcurrency" {
 					ng++
 					recv := accessPath(ci.Common().Value)
-					c.Check(recv == "ctx.StatNode", fnKey(cp)+" / gauge-source", ci.Pos(), "reads CurrentConcurrency of %s (want ctx.StatNode)", recv)
+					c.Check(recv == "{EntryContext}.StatNode", fnKey(cp)+" / gauge-source", ci.Pos(), "reads CurrentConcurrency of %s (want the context's StatNode)", recv)
 				}
 			}
 			if ng == 0 {
@@ -193,7 +194,7 @@ func init() {
 				}
 				args := ci.Common().Args
 				snap := accessPath(args[len(args)-1])
-				c.Check(dom && bt == "BlockTypeIsolation" && strings.Contains(snap, "checkPass(ctx)#2"), fmt.Sprintf("%s / blocked#%d", fnKey(chk), nb), ci.Pos(), "blocked with %s under checkPass()==false (%v), snapshot %s", bt, dom, snap)
+				c.Check(dom && bt == "BlockTypeIsolation" && strings.Contains(snap, "checkPass({EntryContext})#2"), fmt.Sprintf("%s / blocked#%d", fnKey(chk), nb), ci.Pos(), "blocked with %s under checkPass()==false (%v), snapshot %s", bt, dom, snap)
 			}
 			if nb == 0 {
 				c.Violate(fnKey(chk)+" / blocked", chk.Pos(), "isolation slot never blocks")
@@ -214,8 +215,8 @@ func init() {
 				return
 			}
 			inb, _ := constValue(c.P, "core/base.Inbound")
-			gateEq := fmt.Sprintf("%d == ctx.Resource.FlowType()", inb)
-			gateNe := fmt.Sprintf("%d != ctx.Resource.FlowType()", inb)
+			gateEq := fmt.Sprintf("%d == {EntryContext}.Resource.FlowType()", inb)
+			gateNe := fmt.Sprintf("%d != {EntryContext}.Resource.FlowType()", inb)
 			nb := 0
 			for _, ci := range callsIn(f) {
 				bt, ok := blockedResultCall(ci)
@@ -304,10 +305,10 @@ func init() {
 				if !ok || b.Op != token.EQL {
 					return
 				}
-				if k, ok := constInt(b.Y); ok && accessPath(b.X) == "rule.MetricType" {
+				if k, ok := constInt(b.Y); ok && accessPath(b.X) == "{Rule}.MetricType" {
 					cases[k] = true
 				}
-				if k, ok := constInt(b.X); ok && accessPath(b.Y) == "rule.MetricType" {
+				if k, ok := constInt(b.X); ok && accessPath(b.Y) == "{Rule}.MetricType" {
 					cases[k] = true
 				}
 			})
@@ -325,9 +326,9 @@ func init() {
 				x, y := accessPath(b.X), accessPath(b.Y)
 				var src string
 				switch {
-				case y == "rule.TriggerCount":
+				case y == "{Rule}.TriggerCount":
 					src = x
-				case x == "rule.TriggerCount":
+				case x == "{Rule}.TriggerCount":
 					src = y
 				default:
 					return
@@ -336,7 +337,7 @@ func init() {
 				fs := canonFacts(b.Block())
 				caseName := ""
 				for k := int64(0); k < size; k++ {
-					if fs[fmt.Sprintf("%d == rule.MetricType", k)] {
+					if fs[fmt.Sprintf("%d == {Rule}.MetricType", k)] {
 						caseName = constName(mt, k)
 					}
 				}
@@ -351,7 +352,7 @@ func init() {
 						ok2 = false
 					}
 				}
-				if strings.Contains(src, "ctx.") {
+				if strings.Contains(src, "{EntryContext}") {
 					ok2 = false
 				}
 				c.Check(ok2, fmt.Sprintf("%s / source %s", fnKey(f), caseName), b.Pos(), "case %s compares %s with rule.TriggerCount (want %v)", caseName, src, want[caseName])
@@ -370,7 +371,7 @@ func init() {
 				}
 				nbbr++
 				fs := canonFacts(ci.Block())
-				c.Check(fs[fmt.Sprintf("%d == rule.Strategy", bbrV)], fmt.Sprintf("%s / bbr#%d", fnKey(ci.Parent()), nbbr), ci.Pos(), "capacity estimate consulted only for Strategy==BBR")
+				c.Check(fs[fmt.Sprintf("%d == {Rule}.Strategy", bbrV)], fmt.Sprintf("%s / bbr#%d", fnKey(ci.Parent()), nbbr), ci.Pos(), "capacity estimate consulted only for Strategy==BBR")
 			}
 			var reads []string
 			for _, ci := range callsIn(bbr) {
@@ -391,7 +392,7 @@ func init() {
 					continue
 				}
 				fs := canonFacts(r.Block())
-				if fs[fmt.Sprintf("rule.MetricType < %d", size)] {
+				if fs[fmt.Sprintf("{Rule}.MetricType < %d", size)] {
 					okV = true
 				}
 			}
@@ -490,11 +491,11 @@ func init() {
 				for _, ci := range callsIn(chk) {
 					if cal := ci.Common().StaticCallee(); cal != nil && cal.Name() == "SetFilterNodes" {
 						p := accessPath(ci.Common().Args[1])
-						c.Check(p == "core/outlier.checkAllNodes(ctx)#0", fnKey(chk)+" / SetFilterNodes", ci.Pos(), "filter nodes = %s", p)
+						c.Check(p == "core/outlier.checkAllNodes({EntryContext})#0", fnKey(chk)+" / SetFilterNodes", ci.Pos(), "filter nodes = %s", p)
 					}
 					if cal := ci.Common().StaticCallee(); cal != nil && cal.Name() == "SetHalfOpenNodes" {
 						p := accessPath(ci.Common().Args[1])
-						c.Check(p == "core/outlier.checkAllNodes(ctx)#2", fnKey(chk)+" / SetHalfOpenNodes", ci.Pos(), "half-open nodes = %s", p)
+						c.Check(p == "core/outlier.checkAllNodes({EntryContext})#2", fnKey(chk)+" / SetHalfOpenNodes", ci.Pos(), "half-open nodes = %s", p)
 					}
 				}
 			}
@@ -525,7 +526,7 @@ func init() {
 					continue
 				}
 				fs := canonFacts(r.Block())
-				if fs["0 <= r.MaxEjectionPercent"] && fs["r.MaxEjectionPercent <= 1"] {
+				if fs["0 <= {Rule}.MaxEjectionPercent"] && fs["{Rule}.MaxEjectionPercent <= 1"] {
 					okV = true
 				}
 			}
@@ -552,7 +553,15 @@ func init() {
 				}
 				n++
 				fs := canonFacts(ci.Block())
-				c.Check(fs["ctx.Err() == nil"], fmt.Sprintf("%s / recover#%d", fnKey(f), n), ci.Pos(), "node marked recovered under [%s] (want err == nil)", factList(fs))
+				okErr := fs["{EntryContext}.Err() == nil"] || fs["nil == {EntryContext}.Err()"]
+				extra := ""
+				for k := range fs {
+					if outlierRecoverAllowed(k) {
+						continue
+					}
+					extra = k
+				}
+				c.Check(okErr && extra == "", fmt.Sprintf("%s / recover#%d", fnKey(f), n), ci.Pos(), "node marked recovered under [%s]: want exactly 'err == nil' for a known address (extra condition: %q - a successful completion that does not satisfy it leaves the node to be recycled)", factList(fs), extra)
 			}
 			if n == 0 {
 				c.Violate(fnKey(f)+" / recover", f.Pos(), "a successful completion no longer marks the node as recovered: healthy nodes are recycled")
@@ -565,7 +574,7 @@ func init() {
 				m++
 				ok := false
 				for k := range canonFacts(ci.Block()) {
-					if strings.HasPrefix(k, "!") && strings.Contains(k, "r.status[node]") {
+					if strings.HasPrefix(k, "!") && strings.Contains(k, ".status[") {
 						ok = true
 					}
 				}
@@ -577,6 +586,17 @@ func init() {
 		},
 	})
 }
+
+// outlierRecoverAllowed: the conditions under which OnCompleted may call recover mention only the completion's
+// error and its node address; anything else (a breaker state, a counter, ...) is an extra condition.
+func outlierRecoverAllowed(k string) bool {
+	for _, t := range []string{`{EntryContext}.GetPair("address").(string)#0`, `{EntryContext}.GetPair("address").(string)#1`, `{EntryContext}.Err()`} {
+		k = strings.ReplaceAll(k, t, "")
+	}
+	return outlierRest.MatchString(k)
+}
+
+var outlierRest = regexp.MustCompile(`^(len\(\)|nil|[!"=<> 0-9()])*$`)
 
 func argConsts(ci ssa.CallInstruction) string {
 	var out []string
